@@ -339,8 +339,9 @@ class StoSOOAd(Adapter):
 
     def init_line(self, p, kind, K, box, calls, algo=None):
         L = np.log(algo.n * algo.k / algo.delta)
-        return (f"StoSOO.init {kind_str(kind, K)} {box_str(box)} {algo.n} {fbits(algo.k)} {fbits(algo.delta)} {fbits(L)} "
-                f"{algo.h_max}"), "ok"
+        # budget and depth cap: what the caller passed (the model is not told what the object made of them)
+        return (f"StoSOO.init {kind_str(kind, K)} {box_str(box)} {p['n']} {fbits(algo.k)} {fbits(algo.delta)} {fbits(L)} "
+                f"{p['h_max']}"), "ok"
 
     def dump(self, a, delta):
         part = a.partition
@@ -396,7 +397,10 @@ def recording_base(base_name, log):
             self._lid = len(log["created"])
             self._rewards = []
             self._pulls = 0
-            log["created"].append({"kw": {k: v for k, v in kw.items() if k in ("nu", "rho", "rounds")}, "obj": self})
+            # only a weak reference: a wrapper that drops a learner really drops it (the recorder must not change lifetimes)
+            import weakref
+            log["created"].append({"kw": {k: v for k, v in kw.items() if k in ("nu", "rho", "rounds")}, "ref": weakref.ref(self),
+                                   "rewards": self._rewards})
 
         # arguments are handed on exactly as the wrapper wrote them (positional or keyword: POO.get_last_point calls
         # pull(time=0)), so a renamed parameter of the base learner is not masked by this recorder
@@ -523,7 +527,7 @@ class GPOAd(Adapter):
         return a
 
     def parts(self, a):
-        return [e["obj"].partition for e in a._log["created"]]
+        return [o.partition for o in (e["ref"]() for e in a._log["created"]) if o is not None]
 
     def init_line(self, p, kind, K, box, calls, algo=None):
         g = self.gpo(algo)
@@ -534,8 +538,8 @@ class GPOAd(Adapter):
         s_ = ""
         if len(a._log["created"]) > a._created_seen:
             a._created_seen = len(a._log["created"])
-            l = a._log["created"][-1]["obj"]
-            if hasattr(l, "c1"):
+            l = a._log["created"][-1]["ref"]()
+            if l is not None and hasattr(l, "c1"):
                 s_ = f" c1 {fbits(l.c1)}"
         return s_
 
@@ -548,7 +552,7 @@ class GPOAd(Adapter):
         if l is None:
             ld = "-"
         else:
-            d = a._deltas.setdefault(id(l), Delta())
+            d = a._deltas.setdefault(getattr(l, "_lid", id(l)), Delta())      # (not id(l): a dropped learner's address is reused)
             ld = LEARNER_ADS[type(l).__name__].dump(l, d)
         gx = "-" if g.goodx is None else flist(g.goodx)
         lv = flist(g.V_x[-1]) if g.V_x else "-"
@@ -653,13 +657,16 @@ class VROOMAd(Adapter):
             VM.VROOM_node._verif_wrapped = True
         if pcls._kind in ("kary", "randKary") and pcls._K > 2:
             p["n"] = min(p["n"], 20)
-        return _ctor(p, VM.VROOM, n=p["n"], h_max=p["h_max"], b=p["b"], f_max=p["f_max"], domain=box, partition=pcls)
+        a_ = _ctor(p, VM.VROOM, n=p["n"], h_max=p["h_max"], b=p["b"], f_max=p["f_max"], domain=box, partition=pcls)
+        a_._verif_params = dict(p)       # budget, ranking depth floor(log2 n), cap min(h_max, n): from the arguments
+        return a_
 
     def init_line(self, p, kind, K, box, calls, algo=None):
         a = algo
         L1 = np.log(4 * a.n ** 3 / a.delta)
         L2 = np.log(2 * a.n ** 2 / a.delta)
-        return (f"VROOM.init {kind_str(kind, K)} {box_str(box)} {a.n} {a.search_depth} {a.h_max} {fbits(a.b)} {fbits(a.f_max)} "
+        p_ = getattr(a, "_verif_params", None) or {"n": a.n, "h_max": a.h_max, "b": a.b, "f_max": a.f_max}
+        return (f"VROOM.init {kind_str(kind, K)} {box_str(box)} {p_['n']} {int(p_['n']).bit_length() - 1} {min(p_['h_max'], p_['n'])} {fbits(p_['b'])} {fbits(p_['f_max'])} "
                 f"{fbits(L1)} {fbits(L2)} {fbits(a.const)} {draws_str(calls)}"), "ok"
 
     @staticmethod
@@ -912,7 +919,8 @@ def gen_algo_case(seed, idx, algo=None, force=None, monitors_on=True, T=None, ho
         ctx["algo"] = a
         glog = pcls._glog
         parts = lambda: ad.parts(a)
-        part = parts()[0] if parts() else None
+        # (wrappers: no lasting reference to a learner's partition, so that a learner the wrapper drops is really freed)
+        part = (parts()[0] if parts() else None) if ad.name not in ("POO", "GPO", "PCT", "VPCT") else None
         ctx["part"] = part
         ctx["parts"] = parts
         try:
